@@ -6,12 +6,14 @@ namespace libchecks {
 core::Plan generate(const std::string &prop, uint64_t seed, bool thorough) {
   if (prop == "C01" || prop == "C11") return gen_stream(prop, seed, thorough);
   if (prop == "C17") return gen_pending(seed, thorough);
+  if (prop == "C20") return gen_tree(seed, thorough);
   core::harness_error("simlib has no generator for %s", prop.c_str());
 }
 
 core::RunResult execute(const core::Plan &plan, bool log) {
   if (plan.prop == "C01" || plan.prop == "C11") return run_stream(plan, log);
   if (plan.prop == "C17") return run_pending(plan, log);
+  if (plan.prop == "C20") return run_tree(plan, log);
   core::harness_error("simlib cannot execute plans of %s", plan.prop.c_str());
 }
 
